@@ -19,6 +19,8 @@ REPO = os.environ.get("VERIF_REPO", "/repo")
 COQ = os.path.join(VERIF, "coq")
 ENV = dict(os.environ, GOFLAGS="-mod=mod", GOPROXY="off", GOSUMDB="off", GOTOOLCHAIN="local", VERIF_REPO=REPO)
 ENV.pop("GOWORK", None)
+ENV["VERIF_GOPKI_BIN"] = os.path.join(VERIF, "build", "gopki")     # the CLI binary built from REPO by build_harness
+ENV["VERIF_SCRATCH"] = os.path.join(VERIF, "build")                # native temp directories of the cli stream
 COQ_Q = ["-Q", COQ + "/Model", "Gopki.Model", "-Q", COQ + "/Spec", "Gopki.Spec", "-Q", COQ + "/Proofs", "Gopki.Proofs",
          "-Q", COQ + "/Properties", "Gopki.Properties"]
 ALLOWED_AXIOMS = ()   # nothing: every property theorem must be closed under the global context
